@@ -256,6 +256,7 @@ func c14CheckE2E(u *appx.Universe, cs evx.E2ECase) (sig, msg, class string, res 
 
 func c14PartB(c *report.Ctx, u *appx.Universe, unit *int) {
 	cases := e2eCases(u)
+	sampledB := false
 	c.Stats.Count("b_cases", 0)
 	for i, cs := range cases {
 		*unit++
@@ -276,7 +277,8 @@ func c14PartB(c *report.Ctx, u *appx.Universe, unit *int) {
 			continue
 		}
 		c.Stats.Class(class)
-		if res.Refused == "" && strings.HasPrefix(cs.Desc, "Apology") && len(res.Got) > 0 && strings.Contains(res.Got[0], " ") {
+		if !sampledB && res.Refused == "" && strings.HasPrefix(cs.Desc, "Apology") && len(res.Got) > 0 && strings.Contains(res.Got[0], " ") {
+			sampledB = true
 			c.Stats.Sample(map[string]any{"part": "b", "case": cs.Desc, "decoded": res.Got})
 		}
 	}
@@ -367,6 +369,8 @@ func matchingPhases(typ string, all bool) []evx.Phase {
 	return []evx.Phase{evx.Dealing}
 }
 
+var sampledD bool
+
 // hand injects one decodable event into the keyper scenario and reports a
 // crash as a violation.
 func c14Hand(c *report.Ctx, s *evx.Sim, part, desc string, ev abcitypes.Event, typ string, p evx.Phase, last, restart bool) {
@@ -379,6 +383,10 @@ func c14Hand(c *report.Ctx, s *evx.Sim, part, desc string, ev abcitypes.Event, t
 	}
 	class := fmt.Sprintf("(d) %s handed to the keyper in phase %s%s: %s", typ, p, how, out.Class())
 	c.Stats.Class(class)
+	if !sampledD && out.Kind == "ok" && out.DKG != s.BaseOutcome.DKG {
+		sampledD = true
+		c.Stats.Sample(map[string]any{"part": "d", "case": desc, "event": toWire(ev), "phase": p, "outcome": out.Class()})
+	}
 	if out.Kind == "panic" || out.Kind == "fatal" {
 		w := toWire(ev)
 		c.Violation("C14/keyper-crash/"+out.Where,
